@@ -21,11 +21,11 @@ res = {"seed": sid, "property": prop, "worktree": wt}
 # the patch is what the agent left applied
 patch = sh("git -C %s diff -- . ':!SEED' ':!_cfg'" % wt).stdout
 assert patch.strip(), "no source change in worktree"
-r1 = sh("sh %s/SEED/demo_build.sh %s" % (wt, wt), timeout=1800)
+r1 = sh("bash %s/SEED/demo_build.sh %s" % (wt, wt), timeout=1800)
 res["demo_with_change_rc"] = r1.returncode
 sh("git -C %s stash" % wt)
 try:
-    r0 = sh("sh %s/SEED/demo_build.sh %s" % (wt, wt), timeout=1800)
+    r0 = sh("bash %s/SEED/demo_build.sh %s" % (wt, wt), timeout=1800)
     res["demo_without_change_rc"] = r0.returncode
 finally:
     sh("git -C %s stash pop" % wt)
